@@ -10,7 +10,7 @@ PROPS_MODULES = ["C03.Props"]
 RUN_MODULE = "C03.Run"
 RUN_FN = "run_case"
 HARNESS_BIN = "c03"
-HARNESS_BINS = ["c03"]
+HARNESS_BINS = ["c03", "c03bb"]
 SHRINK_KEEP = ("h1", "h2", "guard")
 RULE = ("cases: (h2) HTTP/2 header lists = the four pseudo-headers mutated (missing, duplicated, after a regular field, "
         "unknown, upper-case, empty, every :path form, bad :scheme/:method bytes) + regular fields from pools with one "
@@ -60,6 +60,7 @@ def translate():
         (r"!compare_no_case\(value, b\"trailers\"\)", "is_invalid_te_value"),
         (r"value\.is_empty\(\) \|\| !value\.iter\(\)\.all\(\|b\| b\.is_ascii_digit\(\)\)", "content-length = 1*DIGIT"),
         (r"BodySize::Length\(existing\) if existing != length => false", "set_content_length conflict"),
+        (r"let already_declared = matches!\(kawa\.body_size, BodySize::Length\(_\)\);.*?if already_declared \{.*?return Ok\(\(\)\);", "repeated equal content-length forwarded once"),
         (r'v\.as_ref\(\) != b"http" && v\.as_ref\(\) != b"https"', ":scheme literal check"),
         (r"v\.contains\(&b'#'\)", ":path fragment check"),
         (r"!v\.iter\(\)\.all\(\|&b\| is_tchar\(b\)\)", ":method token check"),
@@ -67,7 +68,7 @@ def translate():
         (r"if n > 0 && !body_exempt", "END_STREAM with non-zero Content-Length"),
     ]
     for rx, what in checks:
-        if not re.search(rx, pk):
+        if not re.search(rx, pk, re.S):
             fails.append("pkawa.rs: %s no longer has the shape the model mirrors" % what)
     ed = open(os.path.join(vlib.REPO, "lib/src/protocol/kawa_h1/editor.rs")).read()
     for rx, what in [
@@ -326,6 +327,46 @@ def gen_cases(rng, tier):
         r = i % 5
         out.append(h2_case(rng, "a%d" % i) if r in (0, 2) else guard_case(rng, "g%d" % i) if r == 4 else h1_case(rng, "b%d" % i))
     return out
+
+
+def bb_cases(rng, tier):
+    """raw client byte strings for the black-box tier (real worker, recording backend)"""
+    n = {"quick": 120, "thorough": 1500}.get(tier, 120)
+    fixed = [
+        b"GET / HTTP/1.1\r\nHost: x\r\n\r\nGET /admin HTTP/1.1\r\nHost: x\r\n\r\n",
+        b"GET / HTTP/1.1\r\nHost: x\r\n\r\nPOST /admin HTTP/1.1\r\nHost: x\r\nContent-Length: 3\r\n\r\nabc",
+        b"POST / HTTP/1.1\r\nHost: x\r\nTransfer-Encoding: xchunked\r\n\r\n0\r\n\r\nGET /s HTTP/1.1\r\nHost: x\r\n\r\n",
+        b"POST / HTTP/1.1\r\nHost: x\r\nContent-Length: +3\r\n\r\nabcGET /s HTTP/1.1\r\nHost: x\r\n\r\n",
+        b"POST /t HTTP/1.1\r\nHost: x\r\nTransfer-Encoding: chunked\r\n\r\n3\r\nabc\r\n0\r\nX-Forwarded-For: 6.6.6.6\r\nSozu-Id: spoof\r\nX-T: 1\r\n\r\n",
+        b"GET / HTTP/1.1\r\nHost: x\r\nX-Forwarded-For: 6.6.6.6\r\nSozu-Id: spoof\r\nX-Request-Id: a\r\nX-Request-Id: b\r\n\r\n",
+    ]
+    out = []
+    for i, raw in enumerate(fixed):
+        out.append(Case("f%d" % i, [["cuts", 7, 33, 61], ["raw", raw]], dict(kind="bb")))
+    for i in range(n):
+        c = h1_case(rng, "x%d" % i)
+        ops = [op if op[0] != "h1" else ["raw", op[1]] for op in c.ops]
+        out.append(Case(c.id, ops, dict(kind="bb")))
+    return out
+
+
+def extra_stage(tier, rng, work):
+    cases = bb_cases(rng, tier)
+    outs, problems = vlib.run_harness("c03bb", cases, os.path.join(work, "bb"), "release", timeout=240, shards=6)
+    viols, seen, answered = [], 0, 0
+    for c in cases:
+        o = outs.get(c.id)
+        if o is None:
+            problems.append("black-box: no result for case %s" % c.id)
+            continue
+        for (vc, vt) in o["viol"]:
+            viols.append((c, vc, vt))
+        for ob in o["obs"]:
+            if ob and ob[0] == "seen":
+                seen += ob[1]
+                answered += ob[3]
+    return dict(failures=problems, viols=viols,
+                coverage=dict(blackbox_cases=len(cases), blackbox_requests_seen_by_backend=seen, blackbox_answers=answered))
 
 
 def corpus_cases():
